@@ -177,7 +177,7 @@ func rulesC02(r *Run) {
 				}
 				continue
 			}
-			obj := ObjOf(info, p.Ev[si].Chan)
+			obj := PlaceID(info, p.Ev[si].Chan)
 			if limiter == nil {
 				limiter = obj
 			}
@@ -186,7 +186,7 @@ func rulesC02(r *Run) {
 			}
 			// no receive on the limiter between the send and the launch
 			for j := si + 1; j < gi; j++ {
-				if p.Ev[j].Kind == EvRecv && ObjOf(info, p.Ev[j].Chan) == obj {
+				if p.Ev[j].Kind == EvRecv && PlaceID(info, p.Ev[j].Chan) == obj {
 					limiterOK, limiterMsg, limPos = false, "the slot is released again before the launch", p.Ev[j].Pos
 				}
 			}
@@ -212,7 +212,7 @@ func rulesC02(r *Run) {
 				return true
 			}
 			for i, l := range as.Lhs {
-				if ObjOf(info, l) != limiter {
+				if PlaceID(info, l) != limiter {
 					continue
 				}
 				capPos = as.Pos()
@@ -264,7 +264,7 @@ func rulesC02(r *Run) {
 			}
 			n := 0
 			for _, e := range p.Ev {
-				if e.Kind == EvRecv && ObjOf(info, e.Chan) == limiter && !e.Maybe {
+				if e.Kind == EvRecv && PlaceID(info, e.Chan) == limiter && !e.Maybe {
 					n++
 				}
 			}
@@ -274,7 +274,7 @@ func rulesC02(r *Run) {
 			// the release must follow the work
 			ri, wi := -1, -1
 			for j, e := range p.Ev {
-				if e.Kind == EvRecv && ObjOf(info, e.Chan) == limiter {
+				if e.Kind == EvRecv && PlaceID(info, e.Chan) == limiter {
 					ri = j
 				}
 				if IsCall(e, smKey("execSeq")) {
@@ -289,31 +289,46 @@ func rulesC02(r *Run) {
 		r.Check("R2", "ExecuteSequences:release-once-per-launch", bpos, bad == "", "%s", orOK(bad, "the launched literal receives from the limiter exactly once on every exit"))
 		sends, recvs := 0, 0
 		var extraPos token.Pos
-		ast.Inspect(s.fn.Decl.Body, func(n ast.Node) bool {
-			switch x := n.(type) {
-			case *ast.SendStmt:
-				if ObjOf(info, x.Chan) == limiter {
-					sends++
-					if sends > 1 {
-						extraPos = x.Pos()
-					}
+		// receive sites the launched literal executes (in place or in a helper spliced into its paths)
+		litRecv := map[token.Pos]bool{}
+		for i := range s.litP {
+			for _, e := range s.litP[i].Ev {
+				if e.Kind == EvRecv && PlaceID(info, e.Chan) == limiter {
+					litRecv[e.Pos] = true
 				}
-			case *ast.UnaryExpr:
-				if x.Op == token.ARROW && ObjOf(info, x.X) == limiter {
-					recvs++
-					if !containsNode(s.lit, x) {
+			}
+		}
+		scan := func(body ast.Node, hinfo *types.Info) {
+			ast.Inspect(body, func(n ast.Node) bool {
+				switch x := n.(type) {
+				case *ast.SendStmt:
+					if PlaceID(hinfo, x.Chan) == limiter {
+						sends++
+						if sends > 1 {
+							extraPos = x.Pos()
+						}
+					}
+				case *ast.UnaryExpr:
+					if x.Op == token.ARROW && PlaceID(hinfo, x.X) == limiter {
+						recvs++
+						if !containsNode(s.lit, x) && !litRecv[x.Pos()] {
+							extraPos = x.Pos()
+							recvs += 100
+						}
+					}
+				case *ast.CallExpr:
+					if id, ok := x.Fun.(*ast.Ident); ok && id.Name == "close" && len(x.Args) == 1 && PlaceID(hinfo, x.Args[0]) == limiter {
 						extraPos = x.Pos()
 						recvs += 100
 					}
 				}
-			case *ast.CallExpr:
-				if id, ok := x.Fun.(*ast.Ident); ok && id.Name == "close" && len(x.Args) == 1 && ObjOf(info, x.Args[0]) == limiter {
-					extraPos = x.Pos()
-					recvs += 100
-				}
-			}
-			return true
-		})
+				return true
+			})
+		}
+		scan(s.fn.Decl.Body, info)
+		for _, h := range r.P.privateHelpers(s.fn) {
+			scan(h.Decl.Body, h.Pkg.TypesInfo)
+		}
 		if extraPos == 0 {
 			extraPos = s.fn.Decl.Pos()
 		}
@@ -471,6 +486,7 @@ type threshold struct {
 	cmps     []Cmp
 	predVar  types.Object // local closure variable wrapping the test (may be nil)
 	predLit  *ast.FuncLit
+	helperOf map[ast.Expr]*Func // comparisons found in private helpers of ExecuteSequences
 }
 
 func (t *threshold) isLoad(e ast.Expr) bool {
@@ -482,7 +498,7 @@ func (t *threshold) isLoad(e ast.Expr) bool {
 	if !ok || FuncKey(f) != "sync/atomic.Int64.Load" {
 		return false
 	}
-	return recvObj(t.info, c) == t.failures
+	return recvPlace(t.info, c) == t.failures
 }
 
 func (t *threshold) isTol(e ast.Expr) bool {
@@ -510,10 +526,11 @@ func (t *threshold) exceededOn(e Event) (exceeded, ok bool) {
 			return e.Taken != neg, true
 		}
 	}
-	// the comparison itself, as a conjunct of the condition
+	// the comparison itself, as a conjunct of the condition (looked for in this very condition: it may be a
+	// copy of a helper's condition spliced into the path)
 	cjs := conjuncts(c)
 	for _, cj := range cjs {
-		for _, cm := range t.cmps {
+		for _, cm := range FindCmps(t.info, cj, t.isLoad, t.isTol) {
 			if ast.Unparen(cj) == cm.Expr {
 				if e.Taken != neg {
 					return true, true // all conjuncts hold
@@ -541,23 +558,28 @@ func findThreshold(r *Run, rule string) *threshold {
 		return nil
 	}
 	indexForConds(s.fn.Decl)
-	t := &threshold{s: s, info: s.fl.Info}
-	// the counter: the atomic.Int64 local that the launched literal Adds to
-	ast.Inspect(s.lit, func(n ast.Node) bool {
-		c, ok := n.(*ast.CallExpr)
-		if !ok {
-			return true
+	t := &threshold{s: s, info: s.fl.Info, helperOf: map[ast.Expr]*Func{}}
+	// the counter: the atomic.Int64 (a local, or a field when the state lives in a struct) that the
+	// launched literal Adds to, in place or in a helper spliced into its paths
+	for i := range s.litP {
+		for _, e := range s.litP[i].Ev {
+			if IsCall(e, "sync/atomic.Int64.Add") {
+				t.failures = recvPlace(t.info, e.Call)
+			}
 		}
-		if f, ok := calleeFunc(t.info, c); ok && FuncKey(f) == "sync/atomic.Int64.Add" {
-			t.failures = recvObj(t.info, c)
-		}
-		return true
-	})
+	}
 	if t.failures == nil {
 		r.Unresolved(rule, "failure counter (atomic.Int64 incremented in the launched literal)")
 		return nil
 	}
 	t.cmps = FindCmps(t.info, s.fn.Decl.Body, t.isLoad, t.isTol)
+	// the comparison may live in a private helper (a predicate method of a struct holding the state)
+	for _, h := range r.P.privateHelpers(s.fn) {
+		for _, c := range FindCmps(h.Pkg.TypesInfo, h.Decl.Body, t.isLoad, t.isTol) {
+			t.cmps = append(t.cmps, c)
+			t.helperOf[c.Expr] = h
+		}
+	}
 	// closure variable holding the predicate
 	ast.Inspect(s.fn.Decl.Body, func(n ast.Node) bool {
 		as, ok := n.(*ast.AssignStmt)
@@ -590,14 +612,20 @@ func rulesC03(r *Run) {
 
 	// ---- R1: comparison shape
 	r.Kind("R1", "K5")
-	parents := parentMap(s.fn.Decl.Body)
+	parentsOwn := parentMap(s.fn.Decl.Body)
 	for _, c := range t.cmps {
 		r.Evals++
+		parents := parentsOwn
+		if h := t.helperOf[c.Expr]; h != nil {
+			parents = parentMap(h.Decl.Body)
+		}
 		where := "ExecuteSequences"
 		if t.predLit != nil && containsNode(t.predLit, c.Expr) {
 			where = "threshold-predicate"
 		} else if containsNode(s.lit, c.Expr) {
 			where = "launched-literal"
+		} else if h := t.helperOf[c.Expr]; h != nil {
+			where = "threshold-predicate"
 		}
 		r.Check("R1", "cmp-shape:"+where, c.Expr.Pos(), c.Op == token.GTR, "failures compared with ToleratedFailures as `failures %s tolerated`; the block fails only when MORE sequences failed than tolerated (failures > tolerated)", c.Op)
 		// guard tol >= 0
@@ -636,10 +664,31 @@ func rulesC03(r *Run) {
 		}
 		r.Check("R1", "cmp-guard:"+where, c.Expr.Pos(), guarded, "the comparison must be guarded by `ToleratedFailures >= 0` (a negative tolerance allows every sequence to fail)")
 	}
+	// the predicate (a closure, or a private helper method when the state lives in a struct) returns true
+	// exactly on the exceeded branch
+	var pf *Flow
+	var pp []Path
+	havePred := false
+	var predPos token.Pos
 	if t.predLit != nil {
-		// predicate returns true exactly on the exceeded branch
-		pf, pp, ok := r.litPaths("R1", t.predLit)
-		if ok {
+		var ok bool
+		pf, pp, ok = r.litPaths("R1", t.predLit)
+		havePred, predPos = ok, t.predLit.Pos()
+	} else {
+		for _, c := range t.cmps {
+			if h := t.helperOf[c.Expr]; h != nil && !havePred {
+				if res := h.Obj.Type().(*types.Signature).Results(); res.Len() == 1 {
+					if b, ok := res.At(0).Type().Underlying().(*types.Basic); ok && b.Info()&types.IsBoolean != 0 {
+						var ok2 bool
+						pf, pp, ok2 = r.flowPaths("R1", h)
+						havePred, predPos = ok2, h.Decl.Pos()
+					}
+				}
+			}
+		}
+	}
+	if havePred {
+		{
 			bad := ""
 			for i := range pp {
 				p := &pp[i]
@@ -674,7 +723,7 @@ func rulesC03(r *Run) {
 					bad = "the threshold predicate returns " + ret + " without testing the threshold"
 				}
 			}
-			r.Check("R1", "predicate-polarity", t.predLit.Pos(), bad == "", "%s", orOK(bad, "returns true exactly when failures > tolerated (and tolerated >= 0)"))
+			r.Check("R1", "predicate-polarity", predPos, bad == "", "%s", orOK(bad, "returns true exactly when failures > tolerated (and tolerated >= 0)"))
 		}
 	}
 	// the re-check after the join
@@ -720,7 +769,7 @@ func rulesC03(r *Run) {
 	// ---- R2: counting
 	r.Kind("R2", "K2")
 	isAdd := func(e Event) bool {
-		return IsCall(e, "sync/atomic.Int64.Add") && recvObj(info, e.Call) == t.failures
+		return IsCall(e, "sync/atomic.Int64.Add") && recvPlace(info, e.Call) == t.failures
 	}
 	// argument is the constant 1 everywhere
 	ast.Inspect(s.fn.Decl.Body, func(n ast.Node) bool {
@@ -728,7 +777,7 @@ func rulesC03(r *Run) {
 		if !ok {
 			return true
 		}
-		if f, ok := calleeFunc(info, c); ok && FuncKey(f) == "sync/atomic.Int64.Add" && recvObj(info, c) == t.failures {
+		if f, ok := calleeFunc(info, c); ok && FuncKey(f) == "sync/atomic.Int64.Add" && recvPlace(info, c) == t.failures {
 			v, isC := ConstInt(info, c.Args[0])
 			where := "pre-loop"
 			if containsNode(s.lit, c) {
